@@ -1,6 +1,6 @@
 """C01 - inbound framing independent of fragmentation (structural clauses R01.1 - R01.4)."""
 import mir
-from mir import op_place, op_str, place_fields
+from mir import op_place, op_str, place_fields, place_is_local
 import common as C
 
 RC = 'read_connection::ReadConnection'
@@ -254,6 +254,8 @@ def check_crate(fx, rep, crate, tag):
             if rng.get('kind') == 'aggr':
                 read_cursor = C.trace_field(body, rng['rv']['ops'][0], RC)
         if not read_cursor:
+            read_cursor = C.read_cursor_of(body, rt, RC)
+        if not read_cursor:
             rep.bad('R01.2', '%s|read-arg|%s' % (fk, tag), C.where(body, rb), 'the buffer handed to ReadHalf::read is not buffer[read cursor..]')
             continue
         # ---- R01.6 the message cursor is reset to 0 only together with the read cursor ("buffer empty"); the early return
@@ -292,11 +294,20 @@ def check_crate(fx, rep, crate, tag):
                   'transport read is unreachable while the message cursor says a complete frame is buffered',
                   'transport is read although a complete frame may already be buffered (no dominating message-cursor test)')
         # result of the read: the Continue payload
-        def identity_store(s_):
-            # `field = field` (one component of a tuple assignment that leaves this cursor as it is)
-            return s_['rv']['k'] == 'use' and C.trace_field(body, s_['rv']['op'], RC) == read_cursor
+        def identity_store(s_, b_=None, i_=None):
+            # `field = field` (one component of a tuple assignment that leaves this cursor as it is), or a store of a local that provably already equals
+            # the field (`self.read_pos = self.read_batch(..).await?` where the helper wrote the same value back after every step)
+            if s_['rv']['k'] != 'use':
+                return False
+            if C.trace_field(body, s_['rv']['op'], RC) == read_cursor:
+                return True
+            q_ = op_place(s_['rv']['op'])
+            if q_ and place_is_local(q_) and b_ is not None and isinstance(i_, int):
+                import eqfacts
+                return any(f[0] == q_['l'] and f[1] == read_cursor for f in eqfacts.at(body, RC, b_, i_) if f[0] != '=')
+            return False
         advances = [(b, i, s) for b, i, s in C.expand_phi_stores(body, C.field_stores(body, RC, read_cursor))
-                    if not (s['rv']['k'] == 'use' and mir.op_is_const(s['rv']['op'])) and not identity_store(s)]
+                    if not (s['rv']['k'] == 'use' and mir.op_is_const(s['rv']['op'])) and not identity_store(s, b, i)]
         if not advances:
             rep.bad('R01.2', '%s|advance|%s' % (fk, tag), C.where(body, rb),
                     'no store advancing the read cursor field after ReadHalf::read: progress is not recorded in the connection')
@@ -357,6 +368,9 @@ def check_crate(fx, rep, crate, tag):
                 other_edge = info['false'] if info['op'] == 'Eq' else info['true']
                 term_tests.append((sw, nul_edge, other_edge))
         ok_exits = [b for b, i, v, s in C.ok_err_of_return_sites(body) if v == 'Ok' and b in body.reach_from_succ(ab)]
+        if not ok_exits:
+            # the result is produced by a combinator (`msg.map(..).map_err(Into::into)`): a return value of unknown variant may be Ok
+            ok_exits = [b for b, i, v, s in C.ok_err_of_return_sites(body) if v == 'other' and b in body.reach_from_succ(ab)]
         ok_c = False
         detail = {}
         for sw, nul_edge, other_edge in term_tests:
